@@ -523,3 +523,29 @@ Theorem C16_source_call_order :
               b "rewindRequestBody"; b "c.send"].
 Proof. exact (conj cc_set_order (conj cc_store_order (conj fallback_set_order do_order))). Qed.
 Print Assumptions C16_source_call_order.
+
+(* valid credentials => the registry's non-401 answer, for a call in any concurrent execution *)
+Theorem C16_concurrent_valid_credentials_succeed :
+  forall parse clean cf rq osch otok1 otok2 script,
+    let '(evs, op, r) := do_request_rd clean parse cf rq osch otok1 otok2 script in
+    r <> RBad ->
+    rewind_ok (rq_body rq) = true ->
+    r <> RErr ENoCred -> r <> RErr EMissing -> r <> RErr ECred ->
+    (forall s, ~ In (s, AFail) evs) ->
+    (forall s, ~ In (s, AErr) evs) ->
+    (forall h a hdr, ~ In (SReg h a true, A401 hdr) evs) ->
+    (forall s hdr ps, In (s, A401 hdr) evs -> parse hdr <> (SchUnknown, ps)) ->
+    r = RResp false /\ exists h a fresh, last evs no_event = (SReg h a fresh, AOk).
+Proof. exact valid_credentials_succeed_rd. Qed.
+Print Assumptions C16_concurrent_valid_credentials_succeed.
+
+(* the state between the two map operations of concurrentCache.store is a host-tainted
+   cache as well (discharges the atomic-write assumption of the concurrent system) *)
+Theorem C16_store_intermediate_state :
+  forall c h s, cache_ok c ->
+    cache_ok (match cc_entry c h with
+              | Some (s', t) => if scheme_eqb s s' then c else cc_put c h (s, [])
+              | None => cc_put c h (s, [])
+              end).
+Proof. exact store_intermediate_ok. Qed.
+Print Assumptions C16_store_intermediate_state.
